@@ -78,9 +78,23 @@ def decorate_uses(mods, rng):
         for u in m["uses"]:
             t = mods[u["target"]]
             avail = sorted(exports(t, mods, exp).keys())
-            form = rng.choice(["plain", "plain", "only", "rename", "only_rename", "nature", "two", "only_empty"])
+            form = rng.choice(["plain", "plain", "only", "rename", "only_rename", "nature", "two", "only_empty", "rename_swap"])
             if not avail and form not in ("plain", "only_empty"):
                 form = "plain"
+            if form == "rename_swap":
+                # rename clauses act at once: a local name may be the remote name of another clause (swap, shift)
+                tex_ = exports(t, mods, exp)
+                bykind = {}
+                for n in avail:
+                    bykind.setdefault(tex_[n]["kind"], []).append(n)
+                pairs = [v for v in bykind.values() if len(v) >= 2]
+                if not pairs:
+                    form = "rename"
+                else:
+                    a, b = rng.sample(rng.choice(pairs), 2)
+                    u["stmts"] = [{"only": None, "renames": [(a, b), (b, a)] if rng.random() < 0.5 else [(b, a), (f"rs{m['idx']}_{b}", b)]}]
+                    u["form"] = form
+                    continue
             u["stmts"] = []
             if form == "plain":
                 u["stmts"].append({"only": None, "renames": []})
@@ -267,7 +281,7 @@ def render_project(mods, rng, probe_where):
     for m in mods:
         lines, contains, stmts = [], [], []
         L = [f"module {m['name']}"]
-        if not (m["consumer"] and probe_where in ("procedure_use", "nested_use")):
+        if not (m["consumer"] and probe_where in ("procedure_use", "nested_use", "generic_body_use")):
             for u in m["uses"]:
                 L += render_use(u, mods)
         L.append("implicit none")
@@ -279,7 +293,21 @@ def render_project(mods, rng, probe_where):
             render_entity(e, m, lines, contains, stmts)
         rng.shuffle(stmts)
         L += stmts + lines
-        if m["consumer"]:
+        if m["consumer"] and probe_where == "generic_body_use":
+            # the USE statements stand in an interface body of a named (generic) interface: the probes are its dummy arguments
+            cm = lambda s: s.upper() if rng.random() < 0.3 else s  # noqa: E731
+            names = sorted(cands)
+            args = [f"pt{i}" for i, n in enumerate(names) if cands[n] in ("type", "ctor")] + [f"pp{i}" for i, n in enumerate(names) if cands[n] == "absint"]
+            L += [f"interface gprobe_{m['name']}", f"subroutine probe_{m['name']}({', '.join(args)})"]
+            for u in m["uses"]:
+                L += render_use(u, mods)
+            for i, n in enumerate(names):
+                if cands[n] in ("type", "ctor"):
+                    L.append(f"type({cm(n)}) :: pt{i}")
+                elif cands[n] == "absint":
+                    L.append(f"procedure({cm(n)}) :: pp{i}")
+            L += [f"end subroutine probe_{m['name']}", "end interface"]
+        elif m["consumer"]:
             probes = []
             cm = lambda s: s.upper() if rng.random() < 0.3 else s  # noqa: E731
             names = sorted(cands)
@@ -357,10 +385,11 @@ def observe_case(item):
     tables = {}
     for m in project.modules:
         cands_p = list(m.subroutines) + [q for p0 in m.subroutines for q in p0.subroutines]
+        cands_p += [q for it in m.interfaces if getattr(it, "generic", False) for q in list(getattr(it, "subroutines", [])) + list(getattr(it, "functions", []))]
         for p in cands_p:
             if not p.name.lower().startswith("probe_"):
                 continue
-            for v in p.variables:
+            for v in list(p.variables) + [a for a in getattr(p, "args", []) if hasattr(a, "vartype")]:
                 if v.name.lower().startswith(("pt", "pp")) and v.proto:
                     res[("slot", v.name.lower())] = ent_id(v.proto[0])
             for nl in p.namelists:
@@ -423,7 +452,11 @@ def case(arg):
     for i, n in enumerate(names):
         k = cands[n]
         exp = expected_id(n)
-        if k == "ctor":
+        if probe_where == "generic_body_use":
+            if k not in ("type", "ctor", "absint"):
+                continue  # (an interface body holds declarations only)
+            obs = res.get(str(("slot", f"pt{i}" if k != "absint" else f"pp{i}")), "absent")
+        elif k == "ctor":
             # both meanings of the name: the type (declaration) and the generic interface (function reference)
             o1, o2 = res.get(str(("slot", f"pt{i}")), "absent"), calls.get(n, "absent")
             obs = o1 if o1 == o2 else (o1 if o1 != exp else o2)
@@ -676,7 +709,7 @@ def main():
                 if not thorough:
                     perms = rng.sample(perms, min(len(perms), 2 if nprov == 3 else 3))
                 for order in perms:
-                    args.append((sid, frozenset(edges), nprov, seed, rng.choice(["module_use", "module_use", "procedure_use", "nested_use"]), order))
+                    args.append((sid, frozenset(edges), nprov, seed, rng.choice(["module_use", "module_use", "procedure_use", "nested_use", "generic_body_use"]), order))
     results = core.fork_map(case, args, per_case_fork=False, case_timeout=300, total_timeout=3400)
     shapes_seen = set()
     for a, (st, r) in zip(args, results):
